@@ -448,7 +448,7 @@ func (g *G) genC08(p *Plan) {
 			ops = append(ops, op)
 		}
 		if kind == "chunked" {
-			for _, lie := range []string{"badhex", "nosig", "trunc", "trunc1", "declen+", "declen-", "nofinal", "sig63", "sig65", "sig200", "badcrlf", "upperhex"} {
+			for _, lie := range []string{"badhex", "nosig", "trunc", "trunc1", "declen+", "declen-", "nofinal", "sig63", "sig65", "sig200", "badcrlf", "upperhex", "afterfinal", "afterfinal-garbage", "hugehex", "hugehex-empty"} {
 				op := mk()
 				op.Body = g.body(1 + size)
 				op.ChLie = lie
@@ -637,7 +637,7 @@ func (g *G) genC12(p *Plan) {
 			ops = append(ops, Op{K: "put", B: b, Key: key, Body: g.body(cs*2 + g.n(0, 40)), Chunks: []int{cs}, ChLie: "upperhex", Frag: g.frag()})
 		}
 	}
-	for _, lie := range []string{"badhex", "nosig", "trunc", "trunc1", "declen+", "declen-", "nofinal", "sig8", "sig63", "sig65", "sig200", "sig0", "badcrlf", "lfonly"} {
+	for _, lie := range []string{"badhex", "nosig", "trunc", "trunc1", "declen+", "declen-", "nofinal", "sig8", "sig63", "sig65", "sig200", "sig0", "badcrlf", "lfonly", "afterfinal", "afterfinal-garbage", "hugehex", "hugehex-empty"} {
 		if g.chance(0.5) {
 			continue
 		}
@@ -770,6 +770,8 @@ func (g *G) genC15(p *Plan) {
 var hostileKeys = []string{
 	"../bkt-bbb/victim", "a/../../bkt-bbb/victim", "../../metadata/bkt-bbb/x", "./victim", "a/./b", "a/../victim", "..", ".",
 	"a//b", "/lead", "a///b", ".hidden", "dir/.hidden", "back\\slash", "a\\..\\b", "pct%2Fenc", "pct%41", "%2e%2e/x",
+	// names a backend might use for scratch files next to an object
+	"victim.part", "victim.tmp", "victim.new", "victim~", ".victim.swp", "dir/obj.part", "dir/obj.part/below", "dir/.obj.tmp",
 	"victim", "victim/child", "a", "a/b", "a/b/c", "dir", "dir/obj", "a_b", "a-b", "dir_obj", "a\\b", "dir\\obj", "a\\b\\c", "a/b\\c", "Victim", "DIR/OBJ",
 	".modtime-resolution", "metadata", "buckets", "_meta", "bucket/bkt-aaa", "victim-" + "0000000000000000",
 	strings.Repeat("L", 255), strings.Repeat("M", 256), "seg/" + strings.Repeat("N", 300) + "/end",
@@ -1128,7 +1130,9 @@ func (g *G) rawRequest(c *Config, b string, keys []string, esc func(string) stri
 		body := g.pick(
 			"--"+bd+"\r\nContent-Disposition: form-data; name=\"key\"\r\n\r\nformkey\r\n--"+bd+"\r\nContent-Disposition: form-data; name=\"file\"; filename=\"f\"\r\n\r\nDATA\r\n--"+bd+"--\r\n",
 			"--"+bd+"\r\nContent-Disposition: form-data; name=\"file\"; filename=\"f\"\r\n\r\nDATA\r\n--"+bd+"--\r\n",
-			"--"+bd+"\r\nContent-Disposition: form-data; name=\"key\"\r\n\r\nk\r\n--"+bd+"--\r\n", "garbage", "")
+			"--"+bd+"\r\nContent-Disposition: form-data; name=\"key\"\r\n\r\nk\r\n--"+bd+"--\r\n", "garbage", "",
+			// policy fields with values out of any range
+			"--"+bd+"\r\nContent-Disposition: form-data; name=\"key\"\r\n\r\nformkey\r\n--"+bd+"\r\nContent-Disposition: form-data; name=\"success_action_status\"\r\n\r\n"+g.pick("99", "0", "-1", "1000", "201", "abc", "99999999999999999999")+"\r\n--"+bd+"\r\nContent-Disposition: form-data; name=\"success_action_redirect\"\r\n\r\n"+g.pick("http://x/\x00", "::", "")+"\r\n--"+bd+"\r\nContent-Disposition: form-data; name=\"file\"; filename=\"f\"\r\n\r\nDATA\r\n--"+bd+"--\r\n")
 		return rq("post:form", "POST", "/"+bk, withLen([][2]string{{"Content-Type", g.pick("multipart/form-data; boundary="+bd, "multipart/form-data", "text/plain")}}), body)
 	case 14: // conditional gets
 		return rq("get:conditional", g.pick("GET", "HEAD"), target(b, k, nil), [][2]string{{g.pick("If-None-Match", "If-Modified-Since"), g.pick(`"d41d8cd98f00b204e9800998ecf8427e"`, "garbage", "Mon, 02 Jan 2006 15:04:05 GMT", "Sun, 01 Mar 2099 12:00:00 GMT")}}, "")
